@@ -489,6 +489,13 @@ def replay_from_file(path):
     logdir = os.path.join(scratch, "logs")
     os.makedirs(logdir, exist_ok=True)
     rc = C.copy_repo(scratch)
+    if rec.get("cex", {}).get("what") == "hb":
+        # a data race is not observable by a plain run: the saved schedule is re-judged by re-deciding its query family on the current tree
+        qs = [q for q in families() if q.name == rec["query"]]
+        out = run(rec["property"], "thorough", qs, scratch, logdir, C.load_known())
+        bad = bool(out["violations"])
+        print("replay (re-decided %s on the current tree): %s" % (rec["query"], "still fails" if bad else "passes"))
+        return bad
     binary = build_replay(rc, logdir)
     if not binary:
         print("replay harness does not build against this tree")
